@@ -6,6 +6,7 @@ import Geodesy.Model.Wire
 import Geodesy.Model.Proj
 import Geodesy.Model.Ctx.Context
 import Geodesy.Model.Num.Angular
+import Geodesy.Model.Data.Coord
 import Geodesy.Model.Cli.Kp
 import Geodesy.Model.Num.Ntv2
 import Geodesy.Gen.Tables
@@ -224,6 +225,36 @@ def handleAng (fields : List String) : String :=
     | none => "bad-case"
   | _ => "bad-case"
 
+/-- one method of the `CoordinateTuple` trait on a tuple: the tuple afterwards and the value read -/
+def handleTup (fields : List String) : String :=
+  match fields with
+  | [dim, valsS, op, argsS] =>
+    let vals := ((valsS.splitOn ",").filter (· != "")).map parseFloat
+    let a := if argsS == "-" then [] else (argsS.splitOn ",").map parseFloat
+    let n := match dim with | "3" => 3 | "4" => 4 | _ => 2
+    if vals.length != n then "bad-case" else
+    let nan := Float.ofBits 0x7FF8000000000000
+    let t : Data.Tuple Float := ⟨vals⟩
+    let idx (x : Float) : Nat := if x.isFinite && x >= 0.0 then x.toUInt64.toNat else 18446744073709551615
+    let r : Option (Data.Tuple Float × List Float) :=
+      match op, a with
+      | "nth", [i] => some (t, [t.nth nan (idx i)])
+      | "x", [] => some (t, [t.x nan])
+      | "y", [] => some (t, [t.y nan])
+      | "z", [] => some (t, [t.z nan])
+      | "t", [] => some (t, [t.tt nan])
+      | "set_nth", [i, v] => some (t.setNth nan (idx i) v, [])
+      | "set_xy", [x, y] => some (t.setXy nan x y, [])
+      | "set_xyz", [x, y, z] => some (t.setXyz nan x y z, [])
+      | "set_xyzt", [x, y, z, w] => some (t.setXyzt nan x y z w, [])
+      | "fill", [v] => some (t.fill v, [])
+      | "update", vs => some (t.update vs, [])
+      | _, _ => none
+    match r with
+    | some (t', read) => ",".intercalate (t'.vals.map fbits) ++ " | " ++ ",".intercalate (read.map fbits)
+    | none => "bad-case"
+  | _ => "bad-case"
+
 /-- `kp`: options, operation, input files ↦ exit status and standard output -/
 def handleKp (fields : List String) : String :=
   match fields with
@@ -337,6 +368,7 @@ def handle (line : String) : String :=
   | "GRIDS" :: rest => handleGrids rest
   | "KP" :: rest => handleKp rest
   | "ANG" :: rest => handleAng rest
+  | "TUP" :: rest => handleTup rest
   | "HIST" :: rest => handleHist rest
   | "REG" :: rest => handleReg rest
   | "PROJ" :: rest => handleProj rest
